@@ -45,7 +45,8 @@ def run_one(pid, patch):
         hit = [l for l in viol if expect in l]
         if hit:
             return (pid, patch, "OK", hit[0].strip()[:200])
-        return (pid, patch, "MISS", "expected a violation containing %r; got %d other(s): %s" % (expect, len(viol), viol[:1]))
+        return (pid, patch, "MISS", "expected a violation containing %r; got %d other(s): %s%s" % (expect, len(viol), viol[:1],
+                "" if viol else " | output tail: " + " / ".join(out.splitlines()[-3:])[:300]))
     finally:
         shutil.rmtree(d, ignore_errors=True)
 
